@@ -168,12 +168,25 @@ inline void runModel(Rng& r, Ctx& c)
     std::string req;
     bool cache = M->getCovaNumber() > 0 && M->getCova(0)->isOptimizationInitialized(); // diagnostic, BEFORE the request
     std::string exc;
+    bool emptyResult = false;
     try
     {
     if (q == 0) { req = "evalCovMatrixSymmetric"; err = matDiff(M->evalCovMatrixSymmetric(d1), T->evalCovMatrixSymmetric(d1), &scale); }
     else if (q == 1) { req = "evalCovMatrix"; err = matDiff(M->evalCovMatrix(d1, d2), T->evalCovMatrix(d1, d2), &scale); }
-    else if (q == 2) { req = "evalCovMatrixOptim"; err = matDiff(M->evalCovMatrixOptim(d1, d2), T->evalCovMatrixOptim(d1, d2), &scale); }
-    else if (q == 3) { req = "evalCovMatrixSymmetricOptim"; err = matDiff(M->evalCovMatrixSymmetricOptim(d1), T->evalCovMatrixSymmetricOptim(d1), &scale); }
+    else if (q == 2)
+    {
+      req = "evalCovMatrixOptim";
+      MatrixRectangular a = M->evalCovMatrixOptim(d1, d2);
+      err = matDiff(a, T->evalCovMatrixOptim(d1, d2), &scale);
+      emptyResult = (a.getNRows() == 0); // a selection that happens to mask every sample: the request failed
+    }
+    else if (q == 3)
+    {
+      req = "evalCovMatrixSymmetricOptim";
+      MatrixSquareSymmetric a = M->evalCovMatrixSymmetricOptim(d1);
+      err = matDiff(a, T->evalCovMatrixSymmetricOptim(d1), &scale);
+      emptyResult = (a.getNRows() == 0);
+    }
     else if (q == 4)
     {
       req = "evalDriftMatrix";
@@ -221,6 +234,7 @@ inline void runModel(Rng& r, Ctx& c)
             req + (exc.empty() ? "" : " threw '" + exc + "'") + fmt(" (diagnostic: optimisation cache %s) history: ", cache ? "SET" : "empty") + hist);
     if (!lastFailed.empty() || !lastFailedOptim.empty()) c.probe("model-request-after-failed-request");
     if ((q == 2 || q == 3) && exc.empty()) lastFailedOptim.clear(); // an optimised request that runs to its end post-processes the cache
+    if (emptyResult) { lastFailedOptim = req + "(no-active-sample)"; note("FAILED:" + lastFailedOptim); }
   }
   c.puts("history", hist);
 }
